@@ -47,6 +47,33 @@ template <class I> static void strided(I first, I last, I step, int P, const cha
 static void cstr(long c) { int P = 1 + c % 2; c /= 2; int kind = c % 4; c /= 4; int f = c % 4; c /= 4; int len = c % 9; c /= 9; int st = 1 + c % 4;
     if (kind == 0) strided<int>(f, f + len, st, P, "int"); else if (kind == 1) strided<unsigned char>((unsigned char)(240 + f), (unsigned char)(240 + f + len), (unsigned char)st, P, "uchar near 255");
     else if (kind == 2) strided<short>((short)(32750 + f), (short)(32750 + f + len), (short)st, P, "short near max"); else strided<unsigned long long>(~0ull - 20 + f, ~0ull - 20 + f + len, (unsigned long long)st, P, "ull near max"); }
+// ---- strided loops whose SPAN is near the maximum of the index type (few iterations, large step): the iteration count must not overflow
+template <class I> static void span(unsigned long long first, unsigned long long last, unsigned long long step, int P, const char* tn) { vtbb::init(P); std::vector<unsigned long long> seen;
+    tbb::parallel_for((I)first, (I)last, (I)step, [&](I i) { seen.push_back((unsigned long long)i); }); vtbb::finish(); std::sort(seen.begin(), seen.end());
+    std::vector<unsigned long long> want; for (unsigned __int128 i = first; i < last; i += step) want.push_back((unsigned long long)i);
+    if (seen != want) vf_fail("parallel_for(%llu, %llu, step %llu) over %s visited %zu indices (first %llu), expected %zu", first, last, step, tn, seen.size(), seen.empty() ? 0ull : seen[0], want.size());
+    vf_outcome("span %s %llu..%llu/%llu n=%zu", tn, first, last, step, want.size()); }
+static void cspan(long c) { int P = 1 + c % 2; c /= 2; int kind = 0; if (c >= 9180) { c -= 9180; kind = 1 + (int)(c / 120); c %= 120; } static const unsigned long long F8[] = {0, 1, 7, 128}, S8[] = {2, 3, 50, 100, 127, 128, 200, 254, 255};
+    if (kind == 0) { unsigned long long f = F8[c % 4]; c /= 4; unsigned long long st = S8[c % 9]; c /= 9; unsigned long long l = 1 + c % 255; if (l <= f) { vf_outcome("skip"); return; } span<unsigned char>(f, l, st, P, "unsigned char"); return; }
+    static const unsigned long long MX[] = {0, 65535ull, 4294967295ull, ~0ull}; unsigned long long mx = MX[kind]; unsigned long long f = (unsigned long long[]){0, 1, 5}[c % 3]; c /= 3; unsigned long long l = mx - (unsigned long long[]){0, 5, 6, 1000}[c % 4]; c /= 4;
+    unsigned long long parts = (unsigned long long[]){1, 2, 3, 4, 7}[c % 5]; unsigned long long st = (l - f) / parts; if (st < mx) st += (unsigned long long[]){0, 1}[(c / 5) % 2]; if (st < 2) st = 2; if (st > mx) st = mx;
+    if (kind == 1) span<unsigned short>(f, l, st, P, "unsigned short"); else if (kind == 2) span<unsigned>(f, l, st, P, "unsigned"); else span<unsigned long long>(f, l, st, P, "unsigned long long"); }
+// ---- huge 2-d ranges: chunk rectangles must tile the rectangle, a dimension that is not divisible is never cut, products of extents and grains exceed 2^64
+static void c2dhuge(long c) { int part = c % 4; c /= 4; int P = 1 + c % 3; c /= 3;
+    static const unsigned long long SH[][4] = {{(1ull << 34) + 16, 1ull << 31, 12, 1ull << 30}, {12, 1ull << 30, (1ull << 34) + 16, 1ull << 31}, {(1ull << 33) + 5, 1ull << 32, 7, 1ull << 33}, {(1ull << 40) + 3, 1ull << 38, 1ull << 20, 1ull << 19},
+        {1ull << 62, 1ull << 60, 3, 1ull << 40}, {5, 1ull << 62, (1ull << 36) + 1, 1ull << 34}, {(1ull << 32) + 1, 1ull << 31, (1ull << 32) + 1, 1ull << 31}, {9, 4, 1ull << 63, 1ull << 61}};
+    const unsigned long long* sh = SH[c % 8]; unsigned long long R = sh[0], rg = sh[1], C = sh[2], cg = sh[3]; vtbb::init(P);
+    struct Rect { unsigned long long r0, r1, c0, c1; }; std::vector<Rect> ch;
+    with_part(part, [&](auto& p) { tbb::parallel_for(tbb::blocked_range2d<unsigned long long>(0, R, rg, 0, C, cg), [&](const tbb::blocked_range2d<unsigned long long>& r) {
+        if (r.rows().empty() || r.cols().empty()) vf_fail("huge 2d %llux%llu: empty chunk", R, C); if (ch.size() > 100000) vf_fail("huge 2d: more than 100000 chunks (endless splitting)"); ch.push_back({r.rows().begin(), r.rows().end(), r.cols().begin(), r.cols().end()}); vtbb::nested(); vtbb::interleave(); }, p); });
+    vtbb::finish(); unsigned __int128 area = 0;
+    for (size_t i = 0; i < ch.size(); i++) { const Rect& a = ch[i]; if (a.r1 > R || a.c1 > C) vf_fail("huge 2d: chunk outside the range"); area += (unsigned __int128)(a.r1 - a.r0) * (a.c1 - a.c0);
+        if (R <= rg && (a.r0 != 0 || a.r1 != R)) vf_fail("huge 2d %llux%llu grains %llu,%llu: the row dimension is not divisible but a chunk covers rows [%llu,%llu)", R, C, rg, cg, a.r0, a.r1);
+        if (C <= cg && (a.c0 != 0 || a.c1 != C)) vf_fail("huge 2d %llux%llu grains %llu,%llu: the column dimension is not divisible but a chunk covers columns [%llu,%llu)", R, C, rg, cg, a.c0, a.c1);
+        if (part == 0 && ((a.r1 - a.r0 > rg) || (a.c1 - a.c0 > cg))) vf_fail("huge 2d: simple_partitioner chunk %llux%llu exceeds the grains %llu,%llu", a.r1 - a.r0, a.c1 - a.c0, rg, cg);
+        for (size_t j = 0; j < i; j++) { const Rect& b = ch[j]; if (a.r0 < b.r1 && b.r0 < a.r1 && a.c0 < b.c1 && b.c0 < a.c1) vf_fail("huge 2d: two chunks overlap"); } }
+    if (area != (unsigned __int128)R * C) vf_fail("huge 2d %llux%llu: the chunks do not cover the rectangle", R, C);
+    vf_outcome("2dhuge part=%d P=%d shape=%ld chunks=%zu", part, P, c % 8, ch.size()); }
 // ---- parallel_for_each
 static void cfe(long c) { int P = 1 + c % 3; c /= 3; int fwd = c % 2; c /= 2; int n = c % 6; c /= 6; int feed = c % 3;   // each item < feed adds item+10 (one level)
     vtbb::init(P); std::map<int, int> hits; auto body = [&](int x, tbb::feeder<int>& fd) { hits[x]++; if (x < feed) fd.add(x + 10); vtbb::nested(); vtbb::interleave(); };
@@ -64,10 +91,10 @@ static void cinv(long c) { int P = 1 + c % 3; c /= 3; int n = 2 + c % 9; vtbb::i
 struct Solid { int b, e; bool empty() const { return b >= e; } bool is_divisible() const { return false; } Solid(int b_, int e_) : b(b_), e(e_) {} Solid(Solid&, tbb::split) : b(0), e(0) { vf_fail("a range whose is_divisible() is false was split"); } };
 static void csolid(long c) { int part = c % 4; c /= 4; int P = 1 + c % 3; vtbb::init(P); int calls = 0; with_part(part, [&](auto& p) { tbb::parallel_for(Solid(0, 7), [&](const Solid& r) { calls++; if (r.b != 0 || r.e != 7) vf_fail("indivisible range changed"); }, p); }); vtbb::finish(); if (calls != 1) vf_fail("indivisible range: body called %d times", calls); vf_outcome("solid part=%d P=%d", part, P); }
 typedef void (*Fn)(long);
-static Fn fns[] = {c2d, c3d, cnd, chuge, cstr, cfe, cinv, csolid};
+static Fn fns[] = {c2d, c3d, cnd, chuge, cstr, cspan, c2dhuge, cfe, cinv, csolid};
 static void scenario(long c) { for (size_t i = 0; i < blocks.size(); i++) if (c < starts[i] + blocks[i].count) { fns[i](c - starts[i]); return; } }
 int main(int argc, char** argv) {
-    blocks = {{"2d", 4L * 3 * 5 * 5 * 4}, {"3d", 4L * 2 * 4 * 4 * 3}, {"nd", 4L * 2 * 4 * 4 * 2}, {"huge", 4L * 3 * 7 * 3}, {"strided", 2L * 4 * 4 * 9 * 4}, {"for_each", 3L * 2 * 6 * 3}, {"invoke", 3L * 9}, {"solid", 4L * 3}};
+    blocks = {{"2d", 4L * 3 * 5 * 5 * 4}, {"3d", 4L * 2 * 4 * 4 * 3}, {"nd", 4L * 2 * 4 * 4 * 2}, {"huge", 4L * 3 * 7 * 3}, {"strided", 2L * 4 * 4 * 9 * 4}, {"span", 2L * (9180 + 3 * 120)}, {"2dhuge", 4L * 3 * 8}, {"for_each", 3L * 2 * 6 * 3}, {"invoke", 3L * 9}, {"solid", 4L * 3}};
     long s = 0; for (auto& b : blocks) { starts.push_back(s); s += b.count; }
     return vf_main_cases(argc, argv, s, scenario);
 }
